@@ -170,11 +170,12 @@ def group_flattening(H):
     n_children = H.case("children", (0, 1, 2, 3))
     with_comment = H.case("comment_among_children", (False, True))
     attrs = H.case("group_attributes", ("none", "opacity", "opacity+others", "others only"))
+    child_tag = H.case("children_are", ("path", "g", "text"))  # the opacity of a dissolved group reaches EVERY kind of child
     os_, on = numstr(H, "go")
     kids, kid_op = [], []
     for i in range(n_children):
         cs, cn = numstr(H, f"k{i}")
-        kids.append(element(H, "path", {"opacity": cs, "d": "M0,0"}))
+        kids.append(element(H, child_tag, {"opacity": cs, "d": "M0,0"}))
         kid_op.append(cn)
     children = list(kids)
     if with_comment:
